@@ -190,9 +190,9 @@ func hostileHeader(count uint32) []byte {
 	return b
 }
 
-func FuzzC10(f *testing.F)  { addSeeds(f); f.Fuzz(fuzzC10) }
-func FuzzC14(f *testing.F)  { addSeeds(f); f.Fuzz(fuzzC14) }
-func FuzzC09(f *testing.F)  { addSeeds(f); f.Fuzz(fuzzC09) }
+func FuzzC10(f *testing.F) { addSeeds(f); f.Fuzz(fuzzC10) }
+func FuzzC14(f *testing.F) { addSeeds(f); f.Fuzz(fuzzC14) }
+func FuzzC09(f *testing.F) { addSeeds(f); f.Fuzz(fuzzC09) }
 func FuzzSpec(f *testing.F) {
 	addSeeds(f, []byte("192.0.2.0/24"), []byte("192.0.2.1-192.0.2.9"), []byte("2001:db8::/64"), []byte("192.0.2.0/255.255.255.0"), []byte("::ffff:1.2.3.4/120"), []byte("1.2.3.4/-1"), []byte("1.2.3.4/033"))
 	f.Fuzz(fuzzSpec)
